@@ -65,7 +65,7 @@ def run(chk):
         corpus(chk, binp)
     for stream, n, rule in (("fmt", 6000 if thorough else 600, RULE_FMT),
                             ("sink", 900 if thorough else 130, RULE_SINK),
-                            ("app", 600 if thorough else 60, RULE_APP)):
+                            ("app", 800 if thorough else 200, RULE_APP)):
         if only and only != stream:
             continue
         r = vf.run_stream(binp, stream, n, chk.seed, os.path.join(chk.outdir, stream), replay=chk.replay)
